@@ -102,6 +102,11 @@ def diff(a, b, path="", memo_ok=False):
             if scratch:
                 ia = {k: v for k, v in ia.items() if k not in scratch}
                 ib = {k: v for k, v in ib.items() if k not in scratch}
+            if ca.startswith("obj:") and _memoising(ca[4:]):
+                # private (underscore) attributes of environment objects are internal working caches, e.g. the boundary MPS
+                # that EnvApproximate.bond_metric re-optimises from its previous value as a warm start
+                ia = {k: v for k, v in ia.items() if not k.startswith("_")}
+                ib = {k: v for k, v in ib.items() if not k.startswith("_")}
             for k in ia:
                 if k not in ib:
                     return f"{path}/{k}", "removed"
@@ -147,7 +152,9 @@ SCRATCH_ATTRS = {"EnvBoundaryMPS": ("xrange", "yrange")}
 # (expand_krylov_space "expands the Krylov base" V and its projection H; ctm_conv_corner_spec appends the new
 #  corner spectra to ``history`` and returns it)
 ACCUMULATORS = {("expand_krylov_space", 5), ("expand_krylov_space", 6), ("expand_krylov_space", "V"), ("expand_krylov_space", "H"),
-                ("ctm_conv_corner_spec", 1), ("ctm_conv_corner_spec", "history")}
+                ("ctm_conv_corner_spec", 1), ("ctm_conv_corner_spec", "history"),
+                # EnvBoundaryMPS.sample_MC_: "proj_env, st1, st2 are updated in place" (docstring)
+                ("sample_MC_", 2), ("sample_MC_", 3), ("sample_MC_", "st1"), ("sample_MC_", "st2")}
 
 
 def is_inplace_receiver(ev):
